@@ -290,6 +290,62 @@ static void c20_lean() {
     lean_one<double>("HostEndian<double>::ToBig", d, vf_lean::to_big_f64(d), true); lean_one<double>("HostEndian<double>::FromLittle", d, vf_lean::from_little_f64(d), false);
   }
 }
+namespace vf_ndebug {
+std::uint16_t FromBig_u16(std::uint16_t);
+std::uint16_t ToBig_u16(std::uint16_t);
+std::uint16_t FromLittle_u16(std::uint16_t);
+std::uint16_t ToLittle_u16(std::uint16_t);
+std::int32_t FromBig_i32(std::int32_t);
+std::int32_t ToBig_i32(std::int32_t);
+std::int32_t FromLittle_i32(std::int32_t);
+std::int32_t ToLittle_i32(std::int32_t);
+std::uint64_t FromBig_u64(std::uint64_t);
+std::uint64_t ToBig_u64(std::uint64_t);
+std::uint64_t FromLittle_u64(std::uint64_t);
+std::uint64_t ToLittle_u64(std::uint64_t);
+std::int64_t FromBig_i64(std::int64_t);
+std::int64_t ToBig_i64(std::int64_t);
+std::int64_t FromLittle_i64(std::int64_t);
+std::int64_t ToLittle_i64(std::int64_t);
+float FromBig_f32(float);
+float ToBig_f32(float);
+float FromLittle_f32(float);
+float ToLittle_f32(float);
+double FromBig_f64(double);
+double ToBig_f64(double);
+double FromLittle_f64(double);
+double ToLittle_f64(double);
+}
+namespace vf_const { struct Row { const char* what; unsigned size; unsigned char in[8]; unsigned char out[8]; bool reversed; }; unsigned rows(const Row** out); }
+// conversions compiled with NDEBUG (engines/hash/ndebug_endian.cpp) and conversions the compiler may fold (engines/hash/const_endian.cpp)
+template <typename T> static void ndebug_one(const char* tn, T x, T (*fb)(T), T (*tb)(T), T (*fl)(T), T (*tl)(T)) {
+  lean_one<T>(fmt("NDEBUG:HostEndian<%s>::FromBig", tn).c_str(), x, fb(x), true); lean_one<T>(fmt("NDEBUG:HostEndian<%s>::ToBig", tn).c_str(), x, tb(x), true);
+  lean_one<T>(fmt("NDEBUG:HostEndian<%s>::FromLittle", tn).c_str(), x, fl(x), false); lean_one<T>(fmt("NDEBUG:HostEndian<%s>::ToLittle", tn).c_str(), x, tl(x), false);
+  rep().count("c20_values_converted_in_an_NDEBUG_translation_unit", 4);
+}
+static void c20_ndebug() {
+  if (!mine(19)) return;
+  Rng r = case_rng("ndebug", 0);
+  for (int i = 0; i < 4000; i++) {
+    uint64_t u = i < 8 ? (0x0102030405060708ull << (i * 8 % 64)) | (uint64_t)i : r.next(); float f; uint32_t fb = (uint32_t)(u >> 7); memcpy(&f, &fb, 4); double d; memcpy(&d, &u, 8);
+
+    ndebug_one<uint16_t>("uint16_t", (uint16_t)u, &vf_ndebug::FromBig_u16, &vf_ndebug::ToBig_u16, &vf_ndebug::FromLittle_u16, &vf_ndebug::ToLittle_u16);
+    ndebug_one<int32_t>("int32_t", (int32_t)(uint32_t)u, &vf_ndebug::FromBig_i32, &vf_ndebug::ToBig_i32, &vf_ndebug::FromLittle_i32, &vf_ndebug::ToLittle_i32);
+    ndebug_one<uint64_t>("uint64_t", u, &vf_ndebug::FromBig_u64, &vf_ndebug::ToBig_u64, &vf_ndebug::FromLittle_u64, &vf_ndebug::ToLittle_u64);
+    ndebug_one<int64_t>("int64_t", (int64_t)u, &vf_ndebug::FromBig_i64, &vf_ndebug::ToBig_i64, &vf_ndebug::FromLittle_i64, &vf_ndebug::ToLittle_i64);
+    ndebug_one<float>("float", f, &vf_ndebug::FromBig_f32, &vf_ndebug::ToBig_f32, &vf_ndebug::FromLittle_f32, &vf_ndebug::ToLittle_f32);
+    ndebug_one<double>("double", d, &vf_ndebug::FromBig_f64, &vf_ndebug::ToBig_f64, &vf_ndebug::FromLittle_f64, &vf_ndebug::ToLittle_f64);
+  }
+}
+static void c20_const() {
+  if (!mine(20)) return;
+  const vf_const::Row* rows = nullptr; unsigned n = vf_const::rows(&rows); const bool little = host_little();
+  for (unsigned i = 0; i < n; i++) { const vf_const::Row& q = rows[i];
+    unsigned char exp[8]; for (unsigned b = 0; b < q.size; b++) exp[b] = (q.reversed == little) ? q.in[q.size - 1 - b] : q.in[b];
+    rep().count("c20_constants_the_compiler_may_fold"); rep().note(hash_combine(hash_str(q.what), i), true);
+    if (memcmp(exp, q.out, q.size) != 0) rep().violation(fmt("oracle-endian:constant-initialiser:%s", q.what), fmt("%s holds bytes %s, expected bytes %s", q.what, hex(q.out, q.size, 16).c_str(), hex(exp, q.size, 16).c_str()), case_desc("const", (int64_t)i, "const"));
+  }
+}
 template <typename T, typename U> static void c20_type(const char* tname, int unit) {
   // U = unsigned integer of the same width, used to enumerate bit patterns
   if (!selected(tname, -1) && !args().only_type.empty()) return;
@@ -359,7 +415,7 @@ int vf::engine_main() {
     c20_type<float, uint32_t>("float", 8); c20_type<double, uint64_t>("double", 9);
     // the integral types that are distinct from every fixed-width typedef on this ABI ("every integral value" is not only the <cstdint> names)
     c20_type<long long, uint64_t>("long long", 10); c20_type<unsigned long long, uint64_t>("unsigned long long", 11);
-    c20_lean(); c20_early();
+    c20_lean(); c20_early(); c20_ndebug(); c20_const();
     c20_type<char, uint8_t>("char", 12); c20_type<wchar_t, uint32_t>("wchar_t", 13); c20_type<char16_t, uint16_t>("char16_t", 14); c20_type<char32_t, uint32_t>("char32_t", 15);
     return 0;
   }
